@@ -153,16 +153,54 @@ func (p *provider) Create(ctx context.Context, nc *v1.NodeClaim) (*v1.NodeClaim,
 	return out, err
 }
 
+// providerErr: the error a failing provider call returns, by class. Besides a plain error, the near misses of the
+// provider's "instance not found" answer: errors that are (or wrap) a Kubernetes API NotFound / Conflict for some
+// OTHER object (the NodeClass the provider could not resolve), the provider's other typed errors, a context error,
+// and a NotFound-looking message without the type. None of them says that the instance is gone.
+func providerErr(class, call string) error {
+	nodeClass := schema.GroupResource{Group: "karpenter.test.sh", Resource: "testnodeclasses"}
+	switch class {
+	case "apiNotFound":
+		return fmt.Errorf("resolving nodeclass, %w", apierrors.NewNotFound(nodeClass, "default"))
+	case "apiNotFoundBare":
+		return apierrors.NewNotFound(nodeClass, "default")
+	case "apiConflict":
+		return fmt.Errorf("updating nodeclass, %w", apierrors.NewConflict(nodeClass, "default", errors.New("injected conflict")))
+	case "apiGone":
+		return fmt.Errorf("listing instances, %w", apierrors.NewResourceExpired("injected: resource version too old"))
+	case "ncnr":
+		return fmt.Errorf("%s, %w", call, cloudprovider.NewNodeClassNotReadyError(errors.New("injected nodeclass not ready")))
+	case "ice":
+		return cloudprovider.NewInsufficientCapacityError(errors.New("injected ICE"))
+	case "ctx":
+		return fmt.Errorf("%s, %w", call, context.DeadlineExceeded)
+	case "notFoundText":
+		return fmt.Errorf("%s, nodeclaim not found", call)
+	}
+	return fmt.Errorf("injected provider %s failure", call)
+}
+
+// honestClass: fault classes that leave the provider's honest answer in place ("wrapnf": a genuine not-found answer is
+// returned wrapped in another error, which errors.As still sees through)
+func wrapAnswer(class string, err error) error {
+	if class == "wrapnf" && err != nil {
+		return fmt.Errorf("provider call, %w", err)
+	}
+	return err
+}
+
 func (p *provider) Get(ctx context.Context, id string) (*v1.NodeClaim, error) {
 	p.w.log("providerGet")
-	switch p.w.fault("providerGet") {
-	case "":
+	class := p.w.fault("providerGet")
+	switch class {
+	case "", "wrapnf":
 	case "crash":
 		panic(crash{})
 	default:
-		return nil, errors.New("injected provider get failure")
+		return nil, providerErr(class, "get")
 	}
-	return p.CloudProvider.Get(ctx, id)
+	out, err := p.CloudProvider.Get(ctx, id)
+	return out, wrapAnswer(class, err)
 }
 
 func (p *provider) Delete(ctx context.Context, nc *v1.NodeClaim) error {
@@ -175,19 +213,20 @@ func (p *provider) Delete(ctx context.Context, nc *v1.NodeClaim) error {
 			p.w.asked = append(p.w.asked, *s)
 		}
 	}
-	switch p.w.fault("providerDelete") {
-	case "":
+	class := p.w.fault("providerDelete")
+	switch class {
+	case "", "wrapnf":
 	case "crash":
 		panic(crash{})
 	default:
-		return errors.New("injected provider delete failure")
+		return providerErr(class, "delete")
 	}
 	pid := nc.Status.ProviderID
 	if _, ok := p.CloudProvider.CreatedNodeClaims[pid]; ok {
 		p.terminating[pid] = true // termination triggered; the instance is still there
 		return nil
 	}
-	return p.CloudProvider.Delete(ctx, nc) // NodeClaimNotFound
+	return wrapAnswer(class, p.CloudProvider.Delete(ctx, nc)) // NodeClaimNotFound
 }
 
 // ---------------------------------------------------------------- world
